@@ -1,4 +1,5 @@
 import Proofs.LinksMeasure
+import Proofs.Remote
 import DeltaModel.Generated.LinkTargets
 /-!
 C19 — hyperlinks are well-formed, transparent, and point at the right target.
@@ -304,5 +305,187 @@ theorem absolute_path_cases (c : PathCfg) (rel : Bytes) :
   · intro u h1 h2
     cases h : c.cwdOfDelta <;> simp [absolutePath, h, h1, h2]
   · intro h1 h2; simp [absolutePath, h1, h2]
+
+/-! ### The remote-derived commit URL (`src/git_config/remote.rs`)
+
+Without a configured `hyperlinks-commit-link-format` the commit URL comes from the `origin` remote:
+`GitRemoteRepo::from_str` recognises the URL with four regexes and `format_commit_url` formats a fixed template per
+forge. Model: `DeltaModel/RemoteRegex.lean` (the regex class by hand: leftmost-first backtracking over the parsed
+patterns) + `DeltaModel/Remote.lean`; the patterns, which groups feed the slug, and the templates are re-read from
+the source on every run (`Generated/Remote.lean`). -/
+
+section RemoteLinks
+open Remote
+
+/-- What the four forges serve (specification side, not read from delta): host and the path between repository and
+hash of a commit page. -/
+def forges : List (List Char × List Char) :=
+  [("github.com".toList, "/commit/".toList), ("gitlab.com".toList, "/-/commit/".toList),
+   ("git.sr.ht".toList, "/commit/".toList), ("codeberg.org".toList, "/commit/".toList)]
+
+/-- The concrete side of the table check: the literal host of the pattern and the infix of the template are a forge
+of `forges`; the separator class is `[:/]`; the literal prefixes are `https://` and `git@`; the only text the slug
+leaves out at the end is `.git`. -/
+def armConcrete (arm : Arm) : Bool :=
+  match findPattern Generated.Remote.patterns arm.pattern, findFormat Generated.Remote.formatArms arm.variant with
+  | some p, some fa =>
+    (match hostLit p.host with
+      | some h => decide ((h, infixOf fa) ∈ forges)
+      | none => false) &&
+    p.sep.chars == [':', '/'] &&
+    decide (∀ alt ∈ p.pre.alts, allLit alt = true → litText alt = "https://".toList ∨ litText alt = "git@".toList) &&
+    decide (∀ t ∈ suffixTexts p.tail, t = ".git".toList)
+  | _, _ => false
+
+/-- **The proof obligation on the source**: for every arm of `from_str`, the host part of its pattern is *literal
+text* (every host the pattern accepts is that one string), it contains no separator character, the `format_commit_url`
+template of the variant the arm builds is `https://<that host>/{slug}<literal>{commit}`, and the slug `format!`
+repeats the path part of the pattern (capture groups in order, literal `/` and `~` as literals, an optional group
+never `unwrap`ped, only a trailing `(?:\.git)?` left out). A pattern whose host part accepts more than one host
+(`gitlab\.[^:/]+`), a template on another host, an arm that builds another forge's variant: this fails. -/
+theorem remote_tables_ok :
+    ∀ arm ∈ Generated.Remote.fromStrArms,
+      armOk Generated.Remote.patterns Generated.Remote.formatArms arm = true := by decide
+
+/-- …and the hosts / commit paths are those of the four forges, the separator is `[:/]`, the literal prefixes are
+`https://` and `git@`, the suffix is `.git`. -/
+theorem remote_tables_are_the_forges : ∀ arm ∈ Generated.Remote.fromStrArms, armConcrete arm = true := by decide
+
+/-- `from_str` cannot panic (`caps.get(k).unwrap()` is only applied to groups that take part in every match). -/
+theorem remote_from_str_total (s : List Char) : ∃ o, recognise s = .ok o := by
+  rcases recogniseWith_sound _ _ _ remote_tables_ok s with h | ⟨r, h, _⟩
+  · exact ⟨none, h⟩
+  · exact ⟨some r, h⟩
+
+/-- **`remote_commit_link_points_at_origin`**: if `from_str` recognises the origin URL `s` as the repository `r`
+(forge variant + slug), then `s` is
+
+    `pre ++ host ++ [sep] ++ slug ++ suf`
+
+with `pre` empty, `https://`, `git@` or `u@` (`u` non-empty, free of `@` — the GitHub pattern's `[^@]+@`), `host` free of
+`:` and `/`, `sep` one of `:` `/`, `suf` empty or `.git`; `host` is one of the four forges, and for **every** hash `h`
+
+    `format_commit_url(h) = "https://" ++ host ++ "/" ++ slug ++ infix ++ h`
+
+with the infix of that forge: the link is on the host that stands at the host position of the origin URL, under the
+path that follows it there, and ends with exactly the hash. -/
+theorem remote_commit_link_points_at_origin (s : List Char) (r : Repo) (hr : recognise s = .ok (some r)) :
+    ∃ pre host sepc suf infx,
+      s = pre ++ host ++ [sepc] ++ r.slug ++ suf ∧
+      (pre = [] ∨ pre = "https://".toList ∨ pre = "git@".toList ∨ UserAt pre) ∧
+      (∀ c ∈ host, c ≠ ':' ∧ c ≠ '/') ∧ (sepc = ':' ∨ sepc = '/') ∧
+      (suf = [] ∨ suf = ".git".toList) ∧
+      (host, infx) ∈ forges ∧
+      ∀ h, commitUrl r h = some ("https://".toList ++ host ++ ['/'] ++ r.slug ++ infx ++ h) := by
+  rcases recogniseWith_sound _ _ _ remote_tables_ok s with h | ⟨r', h, arm, harm, ⟨p, fa, host, pre, sepc, suf, hp, hf, _, hh, hs, hpre, hsep, hfree, hsuf, hurl⟩⟩
+  · rw [recognise] at hr; rw [hr] at h; cases h
+  · rw [recognise] at hr; rw [hr] at h; cases h
+    have hc := remote_tables_are_the_forges arm harm
+    simp only [armConcrete, hp, hf, hh, Bool.and_eq_true, decide_eq_true_eq, beq_iff_eq] at hc
+    obtain ⟨⟨⟨hforge, hsepc⟩, hlit⟩, hsufs⟩ := hc
+    refine ⟨pre, host, sepc, suf, infixOf fa, hs, ?_, ?_, ?_, ?_, hforge, hurl⟩
+    · rcases hpre with h | ⟨alt, halt, hl, rfl⟩ | h
+      · exact Or.inl h
+      · rcases hlit alt halt hl with h | h
+        · exact Or.inr (Or.inl h)
+        · exact Or.inr (Or.inr (Or.inl h))
+      · exact Or.inr (Or.inr (Or.inr h))
+    · intro c hc
+      have := hfree c hc
+      rw [hsepc] at this
+      simp only [List.mem_cons, List.not_mem_nil, or_false, not_or] at this
+      exact this
+    · rw [hsepc] at hsep
+      simpa using hsep
+    · rcases hsuf with h | h
+      · exact Or.inl h
+      · exact Or.inr (hsufs suf h)
+
+/-- `git@gitlab.com:proj/grp/subgrp/repo.git` is the GitLab repository `proj/grp/subgrp/repo`; the hash `94907c0`
+links to that repository's commit page on gitlab.com (the URL in the statement). -/
+example : recognise "git@gitlab.com:proj/grp/subgrp/repo.git".toList =
+      .ok (some ⟨"GitLab".toList, "proj/grp/subgrp/repo".toList⟩) ∧
+    commitUrl ⟨"GitLab".toList, "proj/grp/subgrp/repo".toList⟩ "94907c0".toList =
+      some "https://gitlab.com/proj/grp/subgrp/repo/-/commit/94907c0".toList := by decide
+
+/-- Hosts that only look like a forge are not recognised: no remote-derived link. -/
+theorem remote_lookalike_hosts_not_recognised :
+    recognise "git@gitlab.gnome.org:GNOME/gtk.git".toList = .ok none ∧
+    recognise "https://gitlab.com.cn/a/b".toList = .ok none ∧
+    recognise "https://github.com.evil.org/u/r".toList = .ok none ∧
+    recognise "git@notgithub.com:u/r".toList = .ok none ∧
+    recognise "https://evil.org/github.com/u/r".toList = .ok none := by decide
+
+/-- A configured `hyperlinks-commit-link-format` always wins over the remote (the order of the `if let` chain of
+`format_commit_line_with_osc8_commit_hyperlink`, read from the source). -/
+theorem configured_commit_format_wins (subst : List Char → List Char → List Char) (fmt : List Char)
+    (origin : Option (List Char)) (h : List Char) :
+    commitLinkUrl subst (some fmt) origin h = some (subst fmt h) := rfl
+
+/-- …and without one the URL is the remote-derived one, or there is no link. -/
+theorem unconfigured_commit_link_is_remote_derived (subst : List Char → List Char → List Char)
+    (origin : Option (List Char)) (h : List Char) :
+    commitLinkUrl subst none origin h =
+      match origin.map recognise with
+      | some (.ok (some r)) => commitUrl r h
+      | _ => none := by
+  cases origin with
+  | none => rfl
+  | some s =>
+    simp only [commitLinkUrl, Generated.Remote.commitLinkSources, commitLinkUrlFrom, Option.map_some]
+    cases recognise s with
+    | error e => rfl
+    | ok o => cases o <;> rfl
+
+/-- The byte-level commit URL of the `Links` model (`Links.Remote.commitUrl`, what `links.commit_line` executes) is
+the generated template of the same variant. -/
+theorem links_remote_commit_url_generated (slug commit : Bytes) :
+    Links.Remote.commitUrl (.github slug) commit =
+      (templateBytes Generated.Remote.formatArms "GitHub".toList).1 ++ slug ++
+        (templateBytes Generated.Remote.formatArms "GitHub".toList).2 ++ commit ∧
+    Links.Remote.commitUrl (.gitlab slug) commit =
+      (templateBytes Generated.Remote.formatArms "GitLab".toList).1 ++ slug ++
+        (templateBytes Generated.Remote.formatArms "GitLab".toList).2 ++ commit ∧
+    Links.Remote.commitUrl (.sourcehut slug) commit =
+      (templateBytes Generated.Remote.formatArms "SourceHut".toList).1 ++ slug ++
+        (templateBytes Generated.Remote.formatArms "SourceHut".toList).2 ++ commit ∧
+    Links.Remote.commitUrl (.codeberg slug) commit =
+      (templateBytes Generated.Remote.formatArms "Codeberg".toList).1 ++ slug ++
+        (templateBytes Generated.Remote.formatArms "Codeberg".toList).2 ++ commit := by
+  have h1 : templateBytes Generated.Remote.formatArms "GitHub".toList =
+      ([0x68, 0x74, 0x74, 0x70, 0x73, 0x3a, 0x2f, 0x2f, 0x67, 0x69, 0x74, 0x68, 0x75, 0x62, 0x2e, 0x63, 0x6f, 0x6d, 0x2f],
+       [0x2f, 0x63, 0x6f, 0x6d, 0x6d, 0x69, 0x74, 0x2f]) := by decide
+  have h2 : templateBytes Generated.Remote.formatArms "GitLab".toList =
+      ([0x68, 0x74, 0x74, 0x70, 0x73, 0x3a, 0x2f, 0x2f, 0x67, 0x69, 0x74, 0x6c, 0x61, 0x62, 0x2e, 0x63, 0x6f, 0x6d, 0x2f],
+       [0x2f, 0x2d, 0x2f, 0x63, 0x6f, 0x6d, 0x6d, 0x69, 0x74, 0x2f]) := by decide
+  have h3 : templateBytes Generated.Remote.formatArms "SourceHut".toList =
+      ([0x68, 0x74, 0x74, 0x70, 0x73, 0x3a, 0x2f, 0x2f, 0x67, 0x69, 0x74, 0x2e, 0x73, 0x72, 0x2e, 0x68, 0x74, 0x2f],
+       [0x2f, 0x63, 0x6f, 0x6d, 0x6d, 0x69, 0x74, 0x2f]) := by decide
+  have h4 : templateBytes Generated.Remote.formatArms "Codeberg".toList =
+      ([0x68, 0x74, 0x74, 0x70, 0x73, 0x3a, 0x2f, 0x2f, 0x63, 0x6f, 0x64, 0x65, 0x62, 0x65, 0x72, 0x67, 0x2e, 0x6f, 0x72, 0x67, 0x2f],
+       [0x2f, 0x63, 0x6f, 0x6d, 0x6d, 0x69, 0x74, 0x2f]) := by decide
+  rw [h1, h2, h3, h4]
+  exact ⟨rfl, rfl, rfl, rfl⟩
+
+/-! #### Where the pattern-position reading and git's URL syntax differ (unchanged source)
+
+The theorem above places the host *where the pattern looks for it*. Read as a URL (`UrlSyntax.parse`: what git
+itself connects to), two families of origin URLs have another host or path; both confirmed on the binary
+(known findings `C19-remote-userinfo-slash`, `C19-remote-port-as-owner`, notes/S4-strengthen-C19.md). -/
+
+/-- The GitHub pattern's user prefix `[^@]+@` also accepts `/`: an `@` in the *path* of a URL on another host
+makes delta link its commits to github.com. -/
+theorem remote_at_sign_in_path_links_foreign_host :
+    recognise "https://evil.org/x@github.com/u/r".toList = .ok (some ⟨"GitHub".toList, "u/r".toList⟩) ∧
+    (UrlSyntax.parse "https://evil.org/x@github.com/u/r".toList).map (·.host) = some "evil.org".toList := by decide
+
+/-- A port is taken as the first path component (`[:/]` accepts the colon of `host:port`). -/
+theorem remote_port_taken_as_owner :
+    recognise "https://gitlab.com:8443/grp/repo".toList = .ok (some ⟨"GitLab".toList, "8443/grp/repo".toList⟩) ∧
+    UrlSyntax.parse "https://gitlab.com:8443/grp/repo".toList =
+      some ⟨"gitlab.com".toList, "8443".toList, "grp/repo".toList⟩ ∧
+    recognise "ssh://git@github.com:22/u/r.git".toList = .ok (some ⟨"GitHub".toList, "22/u/r".toList⟩) := by decide
+
+end RemoteLinks
 
 end C19
